@@ -58,6 +58,20 @@ def held_locks(node, fn_node, lock_names):
     return held
 
 
+_CANON = {'deferred_store': '_DEFERRED_DISPATCH_BY_NAME', 'predicate_store': '_PREDICATE_REGISTRY', 'dispatch': 'pretty_dispatch',
+          'cnamedtuple_cache': '_cnamedtuple_fieldnames_by_class'}
+
+
+def _canonical(repo, actual):
+    """the historical name of a module-level store, whatever it is called in this tree (the allow-list is keyed by role)"""
+    from engine import roles
+    r = roles.roles(repo)
+    for role, canon in _CANON.items():
+        if r.get(role) == actual:
+            return canon
+    return actual
+
+
 def check_write_inventory(repo, rep, rule):
     """every write to module-level state from inside the print cone is in the allow-list"""
     cone, shared, sites, cone_sites = cone_inventory(repo)
@@ -71,7 +85,7 @@ def check_write_inventory(repo, rep, rule):
             continue
         seen.add(key)
         n += 1
-        reason = ALLOWED_CONE_WRITES.get(key)
+        reason = ALLOWED_CONE_WRITES.get((_canonical(repo, s.obj.name), s.fn.qualname, s.detail))
         rep.check(reason is not None, rule, 'cone-write:%s:%s:%s' % key, s.where,
                   reason or '',
                   '%s %s module-level %s %s from inside the printing pipeline; only the listed idempotent writes are '
